@@ -33,6 +33,7 @@ package chat
 
 // Header of a chat type: VarInt id, sender component, Boolean has-target, optional target component.
 //@ func (*Type).ReadFrom(t; r) (n, err)
+//@   perreturn
 //@   let st = stream(r)
 //@   let row = Sinrow(st)
 //@   let p0 = old(Spos(st))
@@ -44,7 +45,10 @@ package chat
 //@   let l3 = msg_len(row, p3)
 //@   requires base(t.TargetName) != base(t)
 //@   ensures !Sfail(st) && k <= 5 && msg_ok(row, p1) && Sin(st, p2) == 0 ==> err == nil && n == k + l1 + 1 && Spos(st) == p0 + n                          [@value @accept]
-//@   ensures !Sfail(st) && k <= 5 && msg_ok(row, p1) && Sin(st, p2) != 0 && msg_ok(row, p3) ==> err == nil && n == k + l1 + 1 + l3 && Spos(st) == p0 + n && !isnil(t.TargetName)   [@value @accept]
+//@   ensures !Sfail(st) && k <= 5 && msg_ok(row, p1) && Sin(st, p2) != 0 && msg_ok(row, p3) ==> err == nil                          [@value @accept]
+//@   ensures !Sfail(st) && k <= 5 && msg_ok(row, p1) && Sin(st, p2) != 0 && msg_ok(row, p3) ==> Spos(st) == p3 + l3                                        [@consume]
+//@   ensures err == nil ==> n == Spos(st) - p0                                       [@count]
+//@   ensures !Sfail(st) && k <= 5 && msg_ok(row, p1) && Sin(st, p2) != 0 && msg_ok(row, p3) ==> !isnil(t.TargetName)                 [@value]
 //@   ensures err == nil ==> uint32(t.ID) == leb32_val(row, p0, k) && k <= 5 && msg_ok(row, p1)                                                              [@value]
 //@   ensures Sfail(st) ==> err != nil                                                [@errprop]
 
